@@ -25,12 +25,16 @@ def gen(rnd, n, kind):
         return [2.5] * n
     if kind == "spike":
         return [0.0 if rnd.random() < .8 else rnd.choice([1e3, -1e3]) for _ in range(n)]
+    if kind == "npsmallint":     # elements of uint8 / int16 / int32 arrays: sums that overflow if the window keeps their type
+        t = rnd.choice([np.uint8, np.int16, np.int32])
+        hi = {np.uint8: 255, np.int16: 32767, np.int32: 2 ** 31 - 1}[t]
+        return [t(rnd.randrange(hi // 2, hi)) for _ in range(n)]
     if kind == "outlier":        # values of order one with rare huge (finite) outliers that later leave the window
         return [rnd.choice([1e17, -1e15, 1e13]) if rnd.random() < 0.08 else rnd.uniform(0.5, 2.0) for _ in range(n)]
     raise ValueError(kind)
 
 
-KINDS = ["ramp", "ints", "uniform", "offset", "np64", "npint", "const", "spike", "outlier"]
+KINDS = ["ramp", "ints", "uniform", "offset", "np64", "npint", "const", "spike", "outlier", "npsmallint"]
 
 
 def main(run):
